@@ -13,6 +13,7 @@ import (
 	"strings"
 	"time"
 
+	"github.com/cgi-fr/jsonline/pkg/cast"
 	"github.com/cgi-fr/jsonline/pkg/jsonline"
 )
 
@@ -333,8 +334,32 @@ func emitTwice(cw *caseWriter, zone string, ti, to []colDesc, line []byte) {
 			second = lineOutcome(w2, err2, pan2)
 		}
 	}
+	// attribution hint computed on the implementation: did the exporter's NewValue keep a raw value that
+	// cast.To(raw type of the output column, raw) rejects (finding swallowed-cast)? Used by the driver only
+	// when the model itself cannot compute the line.
+	sw := 0
+	guard(func() {
+		imp := buildTemplate(ti).GetImporter(bytes.NewReader(append(append([]byte{}, line...), '\n')))
+		if !imp.Import() {
+			return
+		}
+		row, gerr := imp.GetRow()
+		if gerr != nil || row == nil {
+			return
+		}
+		for _, c := range to {
+			if c.isSub || c.ty == "none" {
+				continue
+			}
+			if raw, ok := row.Get(c.name); ok && raw != nil {
+				if _, cerr := cast.To(tySample[c.ty], raw); cerr != nil {
+					sw = 1
+				}
+			}
+		}
+	})
 	cw.count("twice:" + strings.SplitN(first, " ", 2)[0])
-	cw.emit("twice "+zone+descStr(ti)+descStr(to)+string(line), strings.HasPrefix(first, "ok"), "twice", "C05", zone, descStr(ti), descStr(to), hxs(string(line)), extStr(ext), first, second)
+	cw.emit("twice "+zone+descStr(ti)+descStr(to)+string(line), strings.HasPrefix(first, "ok"), "twice", "C05", zone, descStr(ti), descStr(to), hxs(string(line)), extStr(ext), first, second, fmt.Sprintf("sw=%d", sw))
 }
 
 func genC05(cw *caseWriter, seed uint64, tier string) {
